@@ -19,7 +19,7 @@ out = ["# Seeded property-breaking changes and what the checks report", "",
        "`-1/-2` = first round, `-3/-4` = second round (asked to avoid the first round's ideas), `-5/-6` = third, `-7/-8` = fourth, `-9/-10` = fifth, `-11/-12` = sixth round",
        "(each round was given the ideas of all earlier rounds as a do-not-reuse list).",
        "Column *quick checks* = checks whose quick tier exits 1 with a VIOLATION line when the patch is applied to /repo",
-       "(final state of the harness; `tools/run_seeded.sh` reproduces the column).", "",
+       "(final state of the harness; `OWN_ONLY=1 tools/run_seeded.sh` reproduces the column: it runs the check of the property the change was", "written against; the two C04 entries were run by hand).", "",
        "| change | breaks | needs, in order to manifest | quick checks that report it | history |", "|---|---|---|---|---|"]
 missed_first = 0
 for name, m in rows:
@@ -28,6 +28,6 @@ for name, m in rows:
     if 'missed' in h or 'detected by the E2s streams added' in h or 'first version: only' in h or 'outside the first' in h or 'first version: C02 and C04 but not' in h or 'first version: reported' in h:
         missed_first += 1
     out.append("| %s | %s | %s | %s | %s |" % (name, m['property'], m['needs_to_manifest'].replace('|', '/'), det, h.replace('|', '/')))
-out += ["", "%d changes; %d of them were missed (or only reported indirectly) by the version of the checks that existed when they arrived and led to a new engine or a sharper oracle; with the current harness every one is reported by the check of the property it was written against." % (len(rows), missed_first)]
+out += ["", "%d changes; %d of them were missed (or only reported indirectly) by the version of the checks that existed when they arrived and led to a new engine or a sharper oracle; with the current harness every one is reported by the check of the property it was written against, with two exceptions explained in their meta.json: C08-6 (its failing vectors lie outside the range C08 quantifies over; C04 reports it) and C05-4 (the repair of defect 14 hardened the very site it relied on, so it no longer breaks C05; C04 reports it as a silent change of the model)." % (len(rows), missed_first)]
 open('/verif/seeded/RESULTS.md', 'w').write("\n".join(out) + "\n")
 print(len(rows), "rows;", missed_first, "initially missed")
